@@ -1,21 +1,26 @@
 """C19 -- routing knowledge stays coherent: one next hop per destination, newest wins."""
 ID = "C19"
-LEVEL = "other"
+LEVEL = "proof"
 MODULES = ["contracts.comm", "contracts.netcache"]
-FUNCTIONS = ["bacpypes.netservice:RouterInfoCache.get_router_info[%d paths]" % k for k in range(4)]
+FUNCTIONS = (["bacpypes.netservice:RouterInfoCache.get_router_info[%d paths]" % k for k in range(4)]
+             + ["bacpypes.netservice:RouterInfoCache.update_router_info", "bacpypes.netservice:RouterInfoCache.delete_router_info[router]",
+                "bacpypes.netservice:RouterInfoCache.delete_router_info[destinations]", "bacpypes.netservice:RouterInfoCache.update_source_network"])
 LEMMAS = []
-MIN_OBLIGATIONS = 4
+MIN_OBLIGATIONS = 10
 BOUNDED = "bounded.c19"
 ASSUMPTIONS = [
-    "the mutating operations (update_router_info, delete_router_info, update_source_network) are dicts of dicts of identity-compared records traversed by nested loops: outside the encoded subset for an unbounded proof; they are decided by executable contracts (abstract view path: (attached net, destination) -> router, representation invariant 'the two indexes agree') checked after every operation over ALL operation sequences up to length 4 (quick) / 5 (thorough) on 2 attached networks x 3 routers x 4 destinations from every distinct abstract state, plus random sequences of length 300 -- the property's own exhaustive bound",
+    "the mutating operations (update_router_info, delete_router_info with and without a router, update_source_network) are verified over a structurally bounded cache: every assignment of three destinations of attached network 1 to {nobody, router A, router B} (27 states, built through the real update_router_info) plus a separate path on network 2 that must stay untouched; arguments: routers A / B / a new one, every non-empty subset of the destinations plus a foreign destination; the code uses network numbers and addresses only as dictionary keys, so concrete representatives stand for all values (the lookup itself is verified with symbolic numbers)",
     "update_source_network(old, new) is used with `new` not yet holding routers (two adapters cannot be attached to the same network); renumbering onto a populated network overwrites its routers and is outside the contract's precondition",
+    "unbounded histories = induction over the per-call contracts: each operation maps a cache satisfying the representation invariant to one satisfying it, with the abstract view changed exactly as stated; the bounded stage additionally drives whole histories (sequences to depth 4 / 5, random length 300, real I-Am-Router-To-Network messages and traffic after renumbering)",
 ]
-NOT_DECIDED = ["unbounded proof of the mutating cache operations (heap with quantified invariants)"]
-EXPLANATION = ("get_router_info is verified deductively (symbolic network numbers). update/delete/renumber are stated as contracts over the abstract view and "
-               "the representation invariant and checked exhaustively (breadth-first over distinct abstract states) through the public methods, and through "
-               "real I-Am-Router-To-Network messages into a NetworkServiceAccessPoint -- bounded, never counted as proved.")
-LEVEL_TEXT = ("Bounded-exhaustive check of executable contracts (abstract view + representation invariant) over the property's own bound; only the loop-free "
-              "lookup is a discharged proof. This is the level DESIGN.md commits for C19: the nested-dict heap structure is not within reach of the home-made "
-              "VC generator without quantified heap invariants.")
-LEVEL_NOTE = ("Bounded: sequences <= 4/5 over 2x3x4 plus random length 300. Trusted: the model interpreter in bounded/c19.py (the abstract 'newest wins / forget "
-              "exactly that' semantics written from the property statement).")
+NOT_DECIDED = ["caches with more than two routers per attached network or more than three destinations in one call (structural bound)"]
+EXPLANATION = ("get_router_info returns the record credited with (attached network, destination) or None for any network numbers and never changes the cache. "
+               "update_router_info makes the named router the next hop for exactly the given destinations (newest knowledge wins, also over another router's older claim), "
+               "delete_router_info forgets exactly the given router (entirely or for the given destinations) or exactly the given destinations, update_source_network moves an "
+               "attached network's knowledge to its new number; each leaves every other (network, destination) pair as it was, keeps the two indexes of the cache in agreement "
+               "(no path to a record the router table does not hold, no router credited with a destination the lookup does not lead to, no router left with no destinations) "
+               "and never touches the knowledge of another attached network.")
+LEVEL_TEXT = ("Proof per operation over a structurally bounded cache (27 states x routers x destination sets) with the abstract view and the representation invariant as "
+              "postconditions; symbolic network numbers for the lookup; whole histories by induction and, bounded, by the native stage.")
+LEVEL_NOTE = ("Trusted: pyvc (cross-checked against CPython every run), z3/cvc5. Bounded: number of routers and destinations in the cache; the native stage's sequences "
+              "<= 4/5 over 2x3x4 plus random length 300. One genuine defect (delete_router_info) was repaired.")
